@@ -7,13 +7,14 @@
   their own; `Orch.run (Orch.init true) ls` over EVERY interleaving of observer revisions, task deaths
   and the orchestrator's segments. No bound on lengths or versions.
   Statement vocabulary: `Covered`, `viewOf`, `stateAt`, `Quiet`, `recover`, `resumeOK`, `oldestReq`,
-  `reqCount`, `attemptCount` (Model/C19_Watch); `evView`, `AllDelivered`, `OnlyChanges` (Model/C19_Insights); `Target`, `Live`, `remaining` (Model/C19_Ensemble);
+  `reqCount`, `attemptCount` (Model/C19_Watch); `evView`, `AllDelivered`, `OnlyChanges`, `reviseAll`, `lastWord`, `NsEv.exists_` (Model/C19_Insights); `servedOf`, `patchKinds`, `NoCoreReadOnly` (Model/C19_Resources); `Target`, `Live`, `remaining` (Model/C19_Ensemble);
   `Quiescent` (Model/C19_Orchestrator); `RelistsAfter` (Model/C19_Watch); `Clusterwide`, `Namespaced`, `ScopeStable` (here).
 -/
 import Kopf.Lemmas.C19_Insights
 import Kopf.Lemmas.C19_Ensemble
 import Kopf.Lemmas.C19_Orchestrator
 import Kopf.Model.C19_Wiring
+import Kopf.Lemmas.C19_Resources
 namespace Kopf.C19
 
 /-! ## Within one watch -/
@@ -347,32 +348,156 @@ theorem listed_namespace_ignored_witness :
 
 /-! ### Terminating namespaces: `revise_namespaces` reads deletionTimestamp + status.conditions -/
 
+theorem mem_nsAdd {served : List Nat} {k x : Nat} : x ∈ nsAdd served k ↔ x = k ∨ x ∈ served := by
+  unfold nsAdd
+  by_cases hc : served.contains k = true
+  · rw [if_pos hc]
+    have : k ∈ served := by simpa using hc
+    constructor
+    · exact Or.inr
+    · rintro (h | h)
+      · exact h ▸ this
+      · exact h
+  · rw [if_neg hc]; simp
+
 theorem mem_reviseNs_of_ne {served : List Nat} {e : NsEv} {k : Nat} (h : k ≠ e.key) :
     k ∈ reviseNs served e ↔ k ∈ served := by
   unfold reviseNs
   split
-  · exact Iff.rfl
+  · split
+    · simp [mem_nsAdd, h]
+    · exact Iff.rfl
   · split
     · simp [List.mem_filter, h]
     · split
+      · simp [mem_nsAdd, h]
       · exact Iff.rfl
-      · simp [h]
 
-/-- An item that says "the namespace exists" keeps or puts it in the insights: a live body adds it, a Terminating
-    body with content / finalizers remaining changes nothing. -/
-theorem mem_reviseNs_of_exists {served : List Nat} {e : NsEv} (hex : e.exists_ = true)
-    (h : e.key ∈ served ∨ e.mark = .live) : e.key ∈ reviseNs served e := by
-  obtain ⟨gone, mark, key⟩ := e
-  cases gone <;> cases mark <;> simp [NsEv.exists_] at hex <;>
-    simp [reviseNs, NsEv.deleted, NsEv.blockers] at h ⊢
-  · by_cases hc : key ∈ served <;> simp [hc]
-  · exact h
+/-- one iteration of `revise_namespaces`, by membership: an item about ANOTHER namespace, and a DELETED event that
+    still carries a True condition (`mute`: log only), change nothing for `k`; every other item about a matching `k`
+    decides alone — served iff it says that the namespace exists -/
+theorem mem_reviseNs_iff {served : List Nat} {e : NsEv} {k : Nat} (hm : e.key = k → e.matched = true) :
+    k ∈ reviseNs served e ↔ (if e.key = k ∧ e.mute = false then e.exists_ = true else k ∈ served) := by
+  by_cases hk : e.key = k
+  · have hmt := hm hk
+    obtain ⟨gone, mark, key, matched⟩ := e
+    simp only at hk hmt
+    subst hk hmt
+    cases gone <;> cases mark <;>
+      simp [reviseNs, NsEv.deleted, NsEv.blockers, NsEv.mute, NsEv.exists_, mem_nsAdd, List.mem_filter]
+  · have : ¬ (e.key = k ∧ e.mute = false) := fun h => hk h.1
+    rw [if_neg this]
+    exact mem_reviseNs_of_ne (fun h => hk h.symm)
+
+/-- **The served namespaces are a function of what exists, not of the order in which it was seen** — `revise_namespaces`
+    characterised exactly, for EVERY sequence of items (listed bodies and events, of any namespaces, in any order, from
+    any earlier contents of `insights.namespaces`): a namespace `k` that matches the operator's patterns is served iff
+    the last item about it (`lastWord`: the last one that is not a DELETED-with-a-True-condition, which is only logged)
+    says that it exists — not a DELETED event, and the body live or Terminating with content / finalizers remaining;
+    with no such item at all, iff it was served before. Nothing else of the history matters: not what was served
+    before, not how many items came, not whether the namespace was ever seen alive (kopf 40faad4; before it a namespace
+    first seen while Terminating was never added: C19-F9, `old_revise_unserved_at_first_sight_regression`). -/
+theorem served_iff_last_word (served : List Nat) (es : List NsEv) (k : Nat)
+    (hm : ∀ e ∈ es, e.key = k → e.matched = true) :
+    k ∈ reviseAll served es ↔
+      match lastWord k es with
+      | some e => e.exists_ = true
+      | none => k ∈ served := by
+  induction es generalizing served with
+  | nil => exact Iff.rfl
+  | cons e es ih =>
+      have ih' := ih (reviseNs served e) (fun x hx => hm x (List.mem_cons_of_mem _ hx))
+      show k ∈ reviseAll (reviseNs served e) es ↔ _
+      rw [ih']
+      simp only [lastWord]
+      cases hl : lastWord k es with
+      | some l => exact Iff.rfl
+      | none =>
+          simp only []
+          rw [mem_reviseNs_iff (hm e List.mem_cons_self)]
+          by_cases hc : e.key = k ∧ e.mute = false
+          · rw [if_pos hc]; simp [hc.1, hc.2]
+          · rw [if_neg hc]
+            have : (decide (e.key = k) && !e.mute) = false := by
+              by_cases hk : e.key = k
+              · have : e.mute = true := by
+                  cases hmu : e.mute
+                  · exact absurd ⟨hk, hmu⟩ hc
+                  · rfl
+                simp [this]
+              · simp [hk]
+            simp [this]
+
+/-- **Every existing matching namespace is served, whatever the history** (the positive statement that C19-F9 negated):
+    if the last word about `k` says that it exists — in particular: Terminating with something remaining, seen for the
+    FIRST time, in the start-up listing after an operator restart — `k` is in `insights.namespaces`, for every earlier
+    contents and every sequence of items; and if the last word says it is gone, `k` is not. -/
+theorem existing_namespace_served (served : List Nat) (es : List NsEv) (k : Nat) (e : NsEv)
+    (hm : ∀ x ∈ es, x.key = k → x.matched = true) (hl : lastWord k es = some e) :
+    (e.exists_ = true → k ∈ reviseAll served es) ∧ (e.exists_ = false → k ∉ reviseAll served es) := by
+  have h := served_iff_last_word served es k hm
+  rw [hl] at h
+  simp only [] at h
+  exact ⟨fun hx => h.mpr hx, fun hx hk => by have := h.mp hk; rw [hx] at this; cases this⟩
+
+/-- the hypotheses are met by the C19-F9 situation: the start-up listing shows namespace 1 Terminating with content
+    remaining (nothing was served before), other namespaces come and go, a mute DELETED item does not count -/
+example :
+    let es : List NsEv := [⟨false, .blocked, 1, true⟩, ⟨false, .live, 2, true⟩, ⟨true, .live, 2, true⟩, ⟨true, .blocked, 1, true⟩]
+    lastWord 1 es = some ⟨false, .blocked, 1, true⟩ ∧ reviseAll [] es = [1] ∧
+    lastWord 2 es = some ⟨true, .live, 2, true⟩ := by decide
+
+/-- **Two histories that end in the same cluster serve the same namespaces**: whatever was served before and whatever
+    the two sequences of items were, if the last words about a matching `k` agree on whether it exists, `k` is served in
+    both or in neither. -/
+theorem served_independent_of_history (served served' : List Nat) (es es' : List NsEv) (k : Nat) (e e' : NsEv)
+    (hm : ∀ x ∈ es, x.key = k → x.matched = true) (hm' : ∀ x ∈ es', x.key = k → x.matched = true)
+    (hl : lastWord k es = some e) (hl' : lastWord k es' = some e') (hsame : e.exists_ = e'.exists_) :
+    k ∈ reviseAll served es ↔ k ∈ reviseAll served' es' := by
+  have h := served_iff_last_word served es k hm
+  have h' := served_iff_last_word served' es' k hm'
+  rw [hl] at h; rw [hl'] at h'
+  simp only [] at h h'
+  rw [h, h', hsame]
+
+/-- seen alive first, or Terminating at first sight; served before or not: the same verdict -/
+example :
+    let es : List NsEv := [⟨false, .live, 1, true⟩, ⟨false, .blocked, 1, true⟩]
+    let es' : List NsEv := [⟨false, .blocked, 1, true⟩]
+    lastWord 1 es = some ⟨false, .blocked, 1, true⟩ ∧ lastWord 1 es' = some ⟨false, .blocked, 1, true⟩ ∧
+    reviseAll [] es = [1] ∧ reviseAll [] es' = [1] ∧ reviseAll [7] es' = [1, 7] := by decide
+
+/-- **Only matching namespaces are ever added.** -/
+theorem unmatched_never_added (served : List Nat) (es : List NsEv) (k : Nat) (hk : k ∈ reviseAll served es) :
+    k ∈ served ∨ ∃ e ∈ es, e.key = k ∧ e.matched = true := by
+  induction es generalizing served with
+  | nil => exact Or.inl hk
+  | cons e es ih =>
+      rcases ih (reviseNs served e) hk with h | ⟨x, hx, hxk⟩
+      · by_cases hke : k = e.key
+        · by_cases hmt : e.matched = true
+          · exact Or.inr ⟨e, List.mem_cons_self, hke.symm, hmt⟩
+          · left
+            have hmf : e.matched = false := by cases hh : e.matched <;> simp_all
+            unfold reviseNs at h
+            rw [hmf] at h
+            simp only [Bool.false_and, Bool.false_eq_true, if_false] at h
+            split at h
+            · exact h
+            · split at h
+              · exact (List.mem_filter.mp h).1
+              · exact h
+        · exact Or.inl ((mem_reviseNs_of_ne hke).mp h)
+      · exact Or.inr ⟨x, List.mem_cons_of_mem _ hx, hxk⟩
+
+example : reviseAll [] [⟨false, .live, 5, false⟩, ⟨false, .blocked, 6, false⟩, ⟨false, .live, 1, true⟩] = [1] := by decide
 
 /-- **A served namespace stays served for as long as it exists — through its whole Terminating phase.** Whatever is
     handed to `revise_namespaces` (listed bodies, events, of any namespaces, in any order): if every item about
     namespace `k` says that it exists (not a DELETED event; the body live, or marked for deletion with some
     condition still True), `k` stays in `insights.namespaces`. So the objects in a namespace that is being deleted
-    — the ones that carry the operator's finalizers and hold the deletion up — keep being watched. -/
+    — the ones that carry the operator's finalizers and hold the deletion up — keep being watched.
+    (No hypothesis on `matched`: nothing is ever discarded by such items.) -/
 theorem terminating_namespace_stays_served (served : List Nat) (es : List NsEv) (k : Nat)
     (hk : k ∈ served) (hex : ∀ e ∈ es, e.key = k → e.exists_ = true) : k ∈ reviseAll served es := by
   induction es generalizing served with
@@ -380,8 +505,12 @@ theorem terminating_namespace_stays_served (served : List Nat) (es : List NsEv) 
   | cons e es ih =>
       apply ih
       · by_cases hke : k = e.key
-        · subst hke
-          exact mem_reviseNs_of_exists (hex e (by simp) rfl) (Or.inl hk)
+        · have hx := hex e (by simp) hke.symm
+          obtain ⟨gone, mark, key, matched⟩ := e
+          simp only at hke
+          subst hke
+          cases gone <;> cases mark <;> cases matched <;> simp [NsEv.exists_] at hx <;>
+            simp [reviseNs, NsEv.deleted, NsEv.blockers, mem_nsAdd, hk]
         · exact (mem_reviseNs_of_ne hke).mpr hk
       · intro e' he' hk'
         exact hex e' (by simp [he']) hk'
@@ -389,8 +518,8 @@ theorem terminating_namespace_stays_served (served : List Nat) (es : List NsEv) 
 /-- the hypothesis is met through a realistic deletion: live, marked + blocked (twice), and other namespaces coming
     and going meanwhile; the namespace leaves the insights only with the item that says nothing remains -/
 example :
-    reviseAll [1, 2] [⟨false, .blocked, 1⟩, ⟨true, .live, 2⟩, ⟨false, .live, 3⟩, ⟨false, .blocked, 1⟩] = [3, 1] ∧
-    reviseAll [3, 1] [⟨false, .finishing, 1⟩, ⟨true, .finishing, 1⟩] = [3] := by decide
+    reviseAll [1, 2] [⟨false, .blocked, 1, true⟩, ⟨true, .live, 2, true⟩, ⟨false, .live, 3, true⟩, ⟨false, .blocked, 1, true⟩] = [3, 1] ∧
+    reviseAll [3, 1] [⟨false, .finishing, 1, true⟩, ⟨true, .finishing, 1, true⟩] = [3] := by decide
 
 /-- An item that says the namespace is gone — a DELETED event, or a Terminating body with no condition True — and
     carries no blocker removes it. -/
@@ -399,18 +528,20 @@ theorem namespace_gone_unserved (served : List Nat) (e : NsEv) (hd : e.deleted =
   unfold reviseNs
   simp [hd, hb, List.mem_filter]
 
-/-- **"Every existing namespace that matches is served" is false of the code** (open finding C19-F9): a namespace that
-    is ALREADY Terminating with something remaining when it is first seen — in the start-up listing after an operator
-    restart, exactly when its objects wait for the operator to release their finalizers — is not added (`deleted and
-    blockers`: log only), and no later item about it adds it while it stays blocked; the same cluster state is served
-    when the operator saw the namespace alive before. What is served depends on the history, not on the cluster. -/
-theorem terminating_at_first_sight_unserved_witness :
-    reviseAll [] [⟨false, .blocked, 1⟩] = [] ∧
-    reviseAll [] [⟨false, .live, 1⟩, ⟨false, .blocked, 1⟩] = [1] ∧
-    (∀ es : List NsEv, (∀ e ∈ es, e.key = 1 → e.mark = .blocked) → 1 ∉ reviseAll [] es) := by
-  refine ⟨by decide, by decide, ?_⟩
+/-- **Regression: kopf before 40faad4 (C19-F9, fixed).** The old loop (`reviseNsOld`: `deleted and blockers` → log only)
+    never adds a namespace that is ALREADY Terminating with something remaining when it is first seen, and no later item
+    about it adds it while it stays blocked — while the same cluster state was served when the operator had seen the
+    namespace alive before: what was served depended on the history. The repaired loop serves it in both histories
+    (in general: `served_independent_of_history`). -/
+theorem old_revise_unserved_at_first_sight_regression :
+    reviseAllOld [] [⟨false, .blocked, 1, true⟩] = [] ∧
+    reviseAllOld [] [⟨false, .live, 1, true⟩, ⟨false, .blocked, 1, true⟩] = [1] ∧
+    (∀ es : List NsEv, (∀ e ∈ es, e.key = 1 → e.mark = .blocked) → 1 ∉ reviseAllOld [] es) ∧
+    reviseAll [] [⟨false, .blocked, 1, true⟩] = [1] ∧
+    reviseAll [] [⟨false, .live, 1, true⟩, ⟨false, .blocked, 1, true⟩] = [1] := by
+  refine ⟨by decide, by decide, ?_, by decide, by decide⟩
   suffices h : ∀ (es : List NsEv) (served : List Nat), 1 ∉ served →
-      (∀ e ∈ es, e.key = 1 → e.mark = .blocked) → 1 ∉ reviseAll served es from fun es => h es [] (by simp)
+      (∀ e ∈ es, e.key = 1 → e.mark = .blocked) → 1 ∉ reviseAllOld served es from fun es => h es [] (by simp)
   intro es
   induction es with
   | nil => intro served hs _; exact hs
@@ -419,13 +550,156 @@ theorem terminating_at_first_sight_unserved_witness :
       apply ih
       · by_cases hke : 1 = e.key
         · have hm := hb e (by simp) hke.symm
-          obtain ⟨gone, mark, key⟩ := e
+          obtain ⟨gone, mark, key, matched⟩ := e
           simp at hm hke
           subst hm
-          cases gone <;> simpa [reviseNs, NsEv.deleted, NsEv.blockers] using hs
-        · exact fun h => hs ((mem_reviseNs_of_ne hke).mp h)
+          cases gone <;> simpa [reviseNsOld, NsEv.deleted, NsEv.blockers] using hs
+        · intro h
+          apply hs
+          unfold reviseNsOld at h
+          split at h
+          · exact h
+          · split at h
+            · exact (List.mem_filter.mp h).1
+            · split at h
+              · rcases mem_nsAdd.mp h with h | h
+                · exact absurd h hke
+                · exact h
+              · exact h
       · intro e' he' hk'
         exact hb e' (by simp [he']) hk'
+
+/-! ### Which of the selected resources are served: `_disable_unsuitable_resources` -/
+
+open Rsc in
+/-- **`_disable_unsuitable_resources`, exactly.** A watched resource stays served iff it can be listed and watched and
+    no patching selector selects it from among the read-only (list + watch, no patch) watched resources. -/
+theorem served_resources_iff (watched : List Rsc.Res) (sels : List Rsc.Sel) (r : Rsc.Res) :
+    r ∈ disableUnsuitable watched sels ↔
+      r ∈ watched ∧ r.watchable = true ∧ ∀ s ∈ sels, r ∉ s.select (readOnly watched) :=
+  mem_disableUnsuitable
+
+open Rsc in
+/-- **A read-only resource with on.event / index handlers only is served, whatever the other resources and their
+    handlers are** (the positive statement that C19-F10 negated; kopf bde2793): if every handler whose selector
+    accepts `r` is an on.event or an index handler — they never patch — and `r` can be listed and watched, `r` is
+    served. Nothing is assumed about any other resource or any other handler. -/
+theorem readonly_event_only_served (watched : List Rsc.Res) (hs : List Rsc.Handler) (r : Rsc.Res)
+    (hr : r ∈ watched) (hw : r.watchable = true)
+    (hev : ∀ h ∈ hs, h.sel.check r = true → h.kind = .watching ∨ h.kind = .indexing) :
+    r ∈ servedOf patchKinds watched hs := by
+  unfold servedOf
+  rw [mem_disableUnsuitable]
+  refine ⟨hr, hw, ?_⟩
+  intro s hs' hm
+  obtain ⟨h, hh, hk, rfl⟩ := mem_patchedSelectors.mp hs'
+  have hc := (mem_select.mp hm).2.1
+  rcases hev h hh hc with hk' | hk' <;> rw [hk'] at hk <;> cases hk
+
+open Rsc in
+/-- the C19-F10 situation: widgets (1) and kopfexamples (2) are both read-only; widgets has an on.event handler,
+    kopfexamples an on.update handler: widgets is served, kopfexamples is not -/
+example :
+    let widgets : Rsc.Res := ⟨1, false, true, true, false⟩
+    let kex : Rsc.Res := ⟨2, false, true, true, false⟩
+    let hs : List Rsc.Handler := [⟨.watching, ⟨true, fun r => r.id == 1⟩⟩, ⟨.changing, ⟨true, fun r => r.id == 2⟩⟩]
+    servedOf patchKinds [widgets, kex] hs = [widgets] := by decide
+
+open Rsc in
+/-- A resource that can be listed, watched and patched is served whatever the handlers and the other resources are. -/
+theorem patchable_served (watched : List Rsc.Res) (sels : List Rsc.Sel) (r : Rsc.Res)
+    (hr : r ∈ watched) (hw : r.watchable = true) (hp : r.canPatch = true) : r ∈ disableUnsuitable watched sels := by
+  rw [mem_disableUnsuitable]
+  refine ⟨hr, hw, fun s _ hm => ?_⟩
+  have := (mem_readOnly.mp (mem_select.mp hm).1).2.1
+  rw [hp] at this; cases this
+
+open Rsc in
+/-- **Nothing unsuitable is served**: what is served can be listed and watched; and a read-only resource that a daemon,
+    timer or changing handler's selector accepts is not served — if that selector is not specific (a category,
+    EVERYTHING), or the resource is in the core group, or no core-group resource is read-only (`NoCoreReadOnly`). -/
+theorem unsuitable_not_served (watched : List Rsc.Res) (hs : List Rsc.Handler) (r : Rsc.Res) :
+    (r ∈ servedOf patchKinds watched hs → r ∈ watched ∧ r.watchable = true) ∧
+    (∀ h ∈ hs, (h.kind = .spawning ∨ h.kind = .changing) → h.sel.check r = true → r.canPatch = false →
+      (h.sel.specific = false ∨ r.core = true ∨ NoCoreReadOnly watched) → r ∉ servedOf patchKinds watched hs) := by
+  unfold servedOf
+  refine ⟨fun h => ⟨(mem_disableUnsuitable.mp h).1, (mem_disableUnsuitable.mp h).2.1⟩, ?_⟩
+  intro h hh hk hc hp hor hm
+  obtain ⟨hr, hw, hno⟩ := mem_disableUnsuitable.mp hm
+  have hsel : h.sel ∈ patchedSelectors patchKinds hs :=
+    mem_patchedSelectors.mpr ⟨h, hh, by rcases hk with hk | hk <;> rw [hk] <;> rfl, rfl⟩
+  apply hno h.sel hsel
+  have hro : r ∈ readOnly watched := mem_readOnly.mpr ⟨hr, hp, hw⟩
+  rcases hor with h1 | h1 | h1
+  · exact mem_select.mpr ⟨hro, hc, fun h2 => by rw [h1] at h2; cases h2⟩
+  · exact mem_select.mpr ⟨hro, hc, fun _ => Or.inl h1⟩
+  · exact (mem_select_readOnly_of_noCore h1).mpr ⟨hro, hc⟩
+
+open Rsc in
+/-- **Whether a resource is served does not depend on the other resources — partial.** For two sets of watched
+    resources that both contain `r` (the others: any, with any verbs), and the same handlers: `r` is served in both or in
+    neither. Guard `NoCoreReadOnly`: no core-group (`v1`) resource that can be listed and watched lacks `patch` — true
+    of every Kubernetes core API. Full statement wanted: the same without the guard; false of the code through
+    `Selector.select`'s core-group priority: `core_priority_residue_witness`. -/
+theorem served_independent_of_other_resources_partial (watched watched' : List Rsc.Res) (hs : List Rsc.Handler) (r : Rsc.Res)
+    (hr : r ∈ watched) (hr' : r ∈ watched') (hn : NoCoreReadOnly watched) (hn' : NoCoreReadOnly watched') :
+    r ∈ servedOf patchKinds watched hs ↔ r ∈ servedOf patchKinds watched' hs := by
+  have key : ∀ (w : List Rsc.Res), r ∈ w → NoCoreReadOnly w →
+      (r ∈ servedOf patchKinds w hs ↔
+        r.watchable = true ∧ ∀ s ∈ patchedSelectors patchKinds hs, ¬ (r.canPatch = false ∧ s.check r = true)) := by
+    intro w hw hnw
+    unfold servedOf
+    rw [mem_disableUnsuitable]
+    constructor
+    · rintro ⟨_, h2, h3⟩
+      refine ⟨h2, fun s hs' ⟨hp, hc⟩ => h3 s hs' ?_⟩
+      exact (mem_select_readOnly_of_noCore hnw).mpr ⟨mem_readOnly.mpr ⟨hw, hp, h2⟩, hc⟩
+    · rintro ⟨h2, h3⟩
+      refine ⟨hw, h2, fun s hs' hm => h3 s hs' ?_⟩
+      obtain ⟨g1, g2⟩ := (mem_select_readOnly_of_noCore hnw).mp hm
+      exact ⟨(mem_readOnly.mp g1).2.1, g2⟩
+  rw [key watched hr hn, key watched' hr' hn']
+
+open Rsc in
+/-- the guard is met by any set without core-group resources, and by core resources with `patch` -/
+example :
+    let a : Rsc.Res := ⟨1, false, true, true, false⟩
+    let pods : Rsc.Res := ⟨2, true, true, true, true⟩
+    let b : Rsc.Res := ⟨3, false, true, true, false⟩
+    let hs : List Rsc.Handler := [⟨.spawning, ⟨true, fun r => r.id == 3⟩⟩, ⟨.watching, ⟨false, fun _ => true⟩⟩]
+    NoCoreReadOnly [a, pods] ∧ NoCoreReadOnly [a, b] ∧
+    servedOf patchKinds [a, pods] hs = [a, pods] ∧ servedOf patchKinds [a, b] hs = [a] := by
+  refine ⟨?_, ?_, by decide, by decide⟩ <;> (unfold NoCoreReadOnly; decide)
+
+open Rsc in
+/-- **The guard is needed: the core-group priority of `Selector.select` leaks into the patch check.** Resource 1 is not
+    in the core group, read-only, and accepted by a specific selector of a daemon (the daemon WILL run on it: handlers
+    are matched by `check`). Alone it is dropped; beside a read-only core-group resource 2 that the same selector accepts,
+    `select` hides it behind the core one, and it stays served. (No Kubernetes core resource is watchable without being
+    patchable, so this is not reachable on a real cluster: an observation about the code, not a finding.) -/
+theorem core_priority_residue_witness :
+    let r : Rsc.Res := ⟨1, false, true, true, false⟩
+    let c : Rsc.Res := ⟨2, true, true, true, false⟩
+    let hs : List Rsc.Handler := [⟨.spawning, ⟨true, fun _ => true⟩⟩]
+    r ∉ servedOf patchKinds [r] hs ∧ r ∈ servedOf patchKinds [r, c] hs ∧ ¬ NoCoreReadOnly [r, c] := by
+  refine ⟨by decide, by decide, ?_⟩
+  intro h
+  have := h ⟨2, true, true, true, false⟩ (by simp) rfl rfl
+  cases this
+
+open Rsc in
+/-- **Regression: kopf before bde2793 (C19-F10, fixed).** The old function dropped ALL read-only resources as soon as a
+    patching selector selected ANY of them: widgets (1; on.event only) was dropped because kopfexamples (2) was read-only
+    under an on.update handler, and was served when kopfexamples could be patched — whether a resource was served
+    depended on another resource. The repaired function serves widgets in both. -/
+theorem old_disable_depends_on_others_regression :
+    let widgets : Rsc.Res := ⟨1, false, true, true, false⟩
+    let kexRO : Rsc.Res := ⟨2, false, true, true, false⟩
+    let kexRW : Rsc.Res := ⟨2, false, true, true, true⟩
+    let sels : List Rsc.Sel := patchedSelectors patchKinds [⟨.watching, ⟨true, fun r => r.id == 1⟩⟩, ⟨.changing, ⟨true, fun r => r.id == 2⟩⟩]
+    widgets ∉ disableUnsuitableOld [widgets, kexRO] sels ∧ widgets ∈ disableUnsuitableOld [widgets, kexRW] sels ∧
+    widgets ∈ disableUnsuitable [widgets, kexRO] sels ∧ widgets ∈ disableUnsuitable [widgets, kexRW] sels := by
+  decide
 
 /-! ### The operator's pause reaches every resource watch-stream (the hand-over of `operator_paused`) -/
 
